@@ -31,7 +31,7 @@ def run(case):
         c2 = record(build(case["c2"]), l2)
         o = dict(fn=fn)
         signal.signal(signal.SIGALRM, _alarm)
-        signal.alarm(int(case.get("timeout", 20)))
+        signal.alarm(int(case.get("timeout", 120)))
         try:
             if fn == "distance":
                 d, a, b, simplex = gjk.gjk_distance_jolt(c1, c2, **case.get("kw", {}))
